@@ -134,7 +134,7 @@ def run(prog, rep, tier):
     for r, n in (("R1-limits", 8), ("R5-exact-at-one", 4), ("R6-accumulator", 4), ("R1-provenance", 2), ("R2-tiling", 2), ("R4-stacking", 4)):
         rep.floor(r, n)
     check_limits(prog, rep)
-    c09.check_exactness(prog, rep, tier)
+    c09.check_exactness(prog, rep, tier, sink_filter=c09.NOT_SELECTION)
     for mod, cname in (c09.GM, c09.PGM):
         K = prog.get_class(cname, mod)
         c09.check_accumulators(prog, rep, K, ["afreq", "acount", "tacount", "tafreq"])
